@@ -219,6 +219,7 @@ class Result:
     def __init__(self, pid, tier, seed):
         self.pid, self.tier, self.seed = pid, tier, seed
         self.violations = []      # (replay dict, suffix)
+        self.ties = []            # (family, case, model obs, impl obs): correspondence breaks below the property level
         self.known = []           # strings
         self.evaluations = 0
         self.distinct = set()
@@ -240,6 +241,9 @@ class Result:
         self.families[family] = self.families.get(family, 0) + len(cases)
         if cases and len(self.samples) < 12:
             self.samples.append({'family': family, 'case': cases[len(cases) // 2][:400]})
+
+    def tie_break(self, family, case, model_obs, impl_obs):
+        self.ties.append((family, case, model_obs, impl_obs))
 
     def violation(self, family, case, expected, actual, oracle, note='', suffix=''):
         self.violations.append(({'property': self.pid, 'family': family, 'seed': self.seed, 'input': case,
